@@ -1,3 +1,45 @@
-/- Properties/C15.lean — placeholder -/
-import Model.Json
-import Spec.JsonEnc
+/-
+  Properties/C15.lean — the JSON codec.
+
+  PROVED
+    * `c15_encode_eq_spec` — on the core fragment (floating-point fields hold floating-point values,
+      map keys are not empty, no logical types) the value `json_writer` emits (model Json.encode:
+      the writer's traversal with the JSON encoder's calls) is exactly the specification's JSON
+      encoding Spec.jsonEncode of the datum — null as null, other union values wrapped as
+      {branch name: value} with full names for named types, bytes/fixed as strings of code points,
+      enums as symbols, maps/records as objects in order, arrays as arrays — for the branches
+      `write_union` selects (C09 is the property about that selection), at any depth;
+    * `c15_core_is_spec`    — on that fragment the core encoder and the full specification encoder
+      agree (the fragment only removes inputs, it does not change outputs);
+    * `c15_bytes_strings`   — a byte string written as code points 0–255 decodes back to itself.
+  NOT PROVED (checked by the harness on the implementation and against the model): the read-back
+  clause `json_reader(json_writer(r)) = r`, agreement with the binary codec, defaults of absent
+  fields; and everything about the grammar machine that sequences the encoder/decoder calls
+  (fastavro/io/parser.py), which is not modelled — see known findings F5a–d, F14, F27, F28.
+-/
+import Proofs.Json
+
+open Binary Json JsonProofs
+
+theorem c15_encode_eq_spec (env : Env) (o : WOpts) (fuel : Nat) (s : Schema) (v j : Val)
+    (h : Spec.jsonEncodeCore (fun f bs v => (choose f env o bs v).toOption) fuel env s v = some j) :
+    encode true fuel env o s v = .ok j :=
+  encode_eq_spec env o fuel s v j h
+
+theorem c15_core_is_spec (pick : Nat → List Schema → Val → Option (Nat × Val)) (env : Env) (fuel : Nat) (s : Schema) (v j : Val)
+    (h : Spec.jsonEncodeCore pick fuel env s v = some j) : Spec.jsonEncode pick fuel env s v = some j :=
+  core_is_spec pick env fuel s v j h
+
+theorem c15_bytes_strings (b : Bytes) : latin1Enc (latin1Dec b) = some b ∧ Spec.codePoints b = latin1Dec b :=
+  ⟨latin1_roundtrip b, rfl⟩
+
+/-! non-vacuity: a record with a nullable union of a named type, bytes and an enum -/
+def c15schema : Schema := .record "ns.R" [
+  .mk "u" (.union [.prim .null false none, .enum "ns.E" ["A", "B"] none []]) none [],
+  .mk "b" (.prim .bytes false none) none [],
+  .mk "m" (.map (.prim .double false none)) none []] []
+def c15value : Val := .dict [(.str "u", .str "B"), (.str "b", .bytes [0, 255]), (.str "m", .dict [(.str "k", .float 0x3FF8000000000000)])]
+
+example : (match Spec.jsonEncodeCore (fun f bs v => (choose f [] {} bs v).toOption) 6 [] c15schema c15value with
+    | some (.dict [(.str "u", .dict [(.str "ns.E", .str "B")]), (.str "b", .str _), (.str "m", .dict [(.str "k", .float _)])]) => true
+    | _ => false) = true := by decide +kernel
